@@ -226,7 +226,7 @@ def check(spec, tier, seed, replay=None):
             f.write('# correspondence between the Coq model (%s, theorems of Properties_%s.v) and %s no longer checks\n' % (
                 spec.component, pid, os.path.basename(exe)))
             f.write('# %d of %d cases differ; smallest after shrinking below. first difference at line %s:\n#   model: %s\n#   impl : %s\n' % (
-                len(unexplained), len(cases), core.first_diff(mm, im)))
+                (len(unexplained), len(cases)) + tuple(core.first_diff(mm, im) or ('?', '?', '?'))))
             f.write('# the property oracle found no input on which the implementation itself violates %s\n' % pid)
             f.write('# replay: ./check %s --replay %s\n' % (pid, rp))
             f.write(cc.text())
